@@ -31,6 +31,7 @@ func runC15(c *Ctx) {
 	c15Tolerance(c)
 	c15Offset(c)
 	c15ExcludedDial(c)
+	c15Round3(c)
 }
 
 func c15Chain(c *Ctx) {
